@@ -504,7 +504,7 @@ class AsyncEventHook(EventHook):
 
     @asynq()
     def trigger(self, *args):
-        yield [async_call.asynq(handler, *args) for handler in self]
+        yield [async_call.asynq(handler, *args) for handler in list(self)]
 
     @asynq()
     def safe_trigger(self, *args):
